@@ -84,7 +84,9 @@ AUDIT_EXTRA = {
     'C11': [('C11Refine', 'Garnish.Props.C11Refine', None)],
     'C18': [('C18Lex', 'Garnish.Props.C18Lex', None), ('C18Parse', 'Garnish.Props.C18Parse', None), ('C02Parse', 'Garnish.Props.C02Parse', r'^C18_')],
     'C02': [('C02Parse', 'Garnish.Props.C02Parse', r'^C02_')],
-    'C04': [('C02Parse', 'Garnish.Props.C02Parse', r'^C04_')],
+    'C04': [('C02Parse', 'Garnish.Props.C02Parse', r'^C04_'), ('C04Build', 'Garnish.Props.C04Build', None)],
+    'C03': [('C03Lex', 'Garnish.Props.C03Lex', None)],
+    'C20': [('C20Compile', 'Garnish.Props.C20', None)],
     'C08': [('C08Casts', 'Garnish.Props.C08Casts', r'^cast_')],
     'C07': [('C08Casts', 'Garnish.Props.C08Casts', r'^C07_')],
 }
